@@ -264,7 +264,11 @@ func GenSegDesc(r *gen.Rand, allowForeign bool) SegDesc {
 	if allowForeign && r.Chance(6) {
 		d.Foreign = true
 		d.Tag = r.PickByte([]byte{0x00, 0x01, 0x03, 0x80, 0xff})
-		d.Body = r.Bytes(r.Intn(10))
+		// every splice_descriptor() starts with a 32-bit identifier: a foreign one has at least 4 bytes
+		d.Body = r.Bytes(4 + r.Intn(8))
+		if r.Chance(3) {
+			d.Body = append([]byte([]string{"CUEI", "ABCD", "GA94", "\x00\x00\x00\x00"}[r.Intn(4)]), r.Bytes(r.Intn(8))...)
+		}
 		if r.Chance(10) {
 			d.Body = r.Bytes(r.PickInt([]int{253, 254, 255, 255})) // the largest descriptor_length values
 		}
